@@ -111,9 +111,38 @@ def match_known(known, prop, inst):
     return None
 
 
+MAX_DISTANCE = 6  # statements, summed over the tree; see DESIGN.md section 12.6
+
+
+def _distance(ctx):
+    if not hasattr(ctx, '_distance'):
+        try:
+            from .desugar import structural_distance
+            ctx._distance = structural_distance(ctx.repo)
+        except Exception:
+            ctx._distance = ({}, {})
+    return ctx._distance
+
+
 def summarise(ctx, known):
-    """-> (exit_code, lines, stats)"""
+    """-> (exit_code, lines, stats)
+
+    Verdict policy: a VIOLATED instance is reported as a violation only while the file it points into is still within
+    MAX_DISTANCE statements of the confirmed tree (after desugaring).  Beyond that the rules' knowledge of the code's
+    shape is not trusted to tell a defect from a rewrite: the instance is reported UNDECIDED (exit 2), with the distance."""
     lines = []
+    per_file, detail = _distance(ctx)
+    downgraded = 0
+    for r in ctx.rules:
+        for i in r.instances:
+            if i.status == VIOLATED and match_known(known, ctx.prop, i) is None:
+                f = (i.site or '').split(':')[0]
+                d = sum(per_file.values()) if per_file else 0
+                if d > MAX_DISTANCE:
+                    i.status = UNDECIDED
+                    i.detail = ('%s  [reported undecided: %s differs from the confirmed tree by %d statements (limit %d) - a rewrite of this size '
+                                'is outside what the shape rules can tell from a defect]' % (i.detail, 'the tree', d, MAX_DISTANCE))
+                    downgraded += 1
     new_violations = []
     known_hits = []
     undecided = []
